@@ -2,7 +2,6 @@ import Driver.Common
 import IoraModel.Model.EngineLifecycle
 import IoraModel.Model.CloseFanout
 import IoraModel.Gen.CloseSites
-import IoraModel.Model.LifecycleSites
 /-! Driver of component `life` (C02): engine lifecycle acceptor ops + close fan-out lockstep ops. -/
 namespace Iora.Driver.Life
 open Iora Iora.Driver Iora.Lifecycle
@@ -95,6 +94,10 @@ def parseOrigin : String → Option Origin
   | "app" => some .app | "connectTimeout" => some .connectTimeout
   | "handshakeTimeout" => some .handshakeTimeout | "writeStall" => some .writeStall | _ => none
 
+/-- TlsMode of connect(): 0 None, 1 Client, 2 Server -/
+def parseTls : String → Option TlsReq
+  | "0" => some .none | "1" => some .client | "2" => some .server | _ => none
+
 structure St where
   udp : Bool := false
   g : G := {}
@@ -110,7 +113,6 @@ def answer (old : G) (g : G) (left : Nat) (stats : Bool := true) : String :=
   let cbs := if outs.isEmpty then "-" else ",".intercalate (outs.map showOut)
   let s := s!"{cbs}|{g.accepted},{g.connected},{g.closedCnt},{showInt g.current}"
   let s := if g.stale then s ++ " !stale" else s
-  let s := if g.envBad then s ++ " !env" else s
   let s := if left > 0 then s ++ s!" !left={left}" else s
   let _ := stats
   s
@@ -164,23 +166,23 @@ def fanStep (st : St) (op : Fanout.Op) : St × String :=
   ({ st with fan := f }, fanAnswer outs)
 
 def step (st : St) : List String → St × String
-  | ["reset", proto, cli, srv, inl, mwq, cob, maxs] =>
-    match parseBit cli, parseBit srv, parseBit inl, mwq.toNat?, parseBit cob, maxs.toNat? with
-    | some cli, some srv, some inl, some mwq, some cob, some maxs =>
+  | ["reset", proto, cli, srv, inl, mwq, cob, maxs, sni] =>
+    match parseBit cli, parseBit srv, parseBit inl, mwq.toNat?, parseBit cob, maxs.toNat?, parseBit sni with
+    | some cli, some srv, some inl, some mwq, some cob, some maxs, some sni =>
       let cfg : Cfg := { cliCtx := cli, srvCtx := srv, inlineHsTimeout := inl, maxWriteQueue := mwq, closeOnBackpressure := cob,
-                         maxSessions := maxs, -- variant flags follow the tree: the F18 / F20 close sites are recognised in the generated site list
-                         tlsRefuse := (Lifecycle.Sites.variantOf Gen.CloseSites.tcpSites).f18,
-                         sniCheck := false,    -- (F20's SSL_set1_host runs only with clientTls.verifyPeer, which the harness leaves off)
+                         maxSessions := maxs,
+                         tlsRefuse := true,    -- (the site table proved equal to the source contains the tlsRefused site)
+                         sniCheck := sni,      -- clientTls.verifyPeer: SSL_set1_host runs for connects by name
                          peerEraseGuarded := Gen.CloseSites.udpPeerEraseGuardedCloseNow,
                          peerEraseGuardedDrain := Gen.CloseSites.udpPeerEraseGuardedDrain }
       ({ st with udp := proto = "udp", g := { cfg := cfg } }, "-|0,0,0,0")
-    | _, _, _, _, _, _ => (st, "bad-op")
+    | _, _, _, _, _, _, _ => (st, "bad-op")
   | ["addl", lid, tls] =>
     match lid.toNat?, parseBit tls with
     | some lid, some tls => run1 st (.apiAddListener lid tls)
     | _, _ => (st, "bad-op")
   | ["apiconnect", tls, named] =>
-    match parseBit tls, parseBit named with
+    match parseTls tls, parseBit named with
     | some tls, some named => run1 st (.apiConnect tls named)
     | _, _ => (st, "bad-op")
   | ["apivia", lid, k] =>
@@ -210,7 +212,9 @@ def step (st : St) : List String → St × String
     | some sid, some i, some o, some h, some as =>
       if st.g.phase = .loop then
         let (g, rest) := if st.udp then Udp.onClient sid i o as st.g else Tcp.onSession sid i o h as st.g
-        ({ st with g := g }, answer st.g g rest.length)
+        -- `!envin`: this INPUT breaks the environment contract of T3c (payload offered to a session whose connect is pending)
+        let envin := !st.udp && !Tcp.envOkSession sid i o h as st.g
+        ({ st with g := g }, answer st.g g rest.length ++ (if envin then " !envin" else ""))
       else (st, answer st.g st.g 0 ++ " !phase")
     | _, _, _, _, _ => (st, "bad-op")
   | "lst" :: lid :: i :: o :: as =>
